@@ -182,6 +182,11 @@ def learn(ctx: Context) -> None:
         v = rv
         ok = isinstance(v, ast.IfExp)
         if ok:
+            test_, flip_ = v.test, False
+            while isinstance(test_, ast.UnaryOp) and isinstance(test_.op, ast.Not):
+                test_, flip_ = test_.operand, not flip_
+            if flip_:
+                v = ast.IfExp(test=test_, body=v.orelse, orelse=v.body)
             c = ns.canon(v.test)
             sentinel = c in (ns.canon(parse_expr("self.alpha == -1")), ns.canon(parse_expr("-1 == self.alpha")))
             neg = c in (ns.canon(parse_expr("self.alpha != -1")),)
